@@ -7,6 +7,7 @@ def run(ctx):
     readers = io_rules.rule_aspartix_grammar(ctx)
     io_rules.rule_writer_in_reader(ctx, fss, readers)
     io_rules.rule_answer_grammar(ctx)
+    io_rules.rule_status_before_witness(ctx)
     store.rule_iterators_filter(ctx)
     ctx.assume("regex-automata's DFA construction and regex-syntax's parser interpret patterns as the regex crate pinned in Cargo.lock does")
     ctx.assume("format_args! template decoding follows library/core/src/fmt/mod.rs; Display of a label prints the label itself (Label::fmt checked by template)")
